@@ -31,6 +31,9 @@ class Cfg:
     twin_leaf_prob: float = 0.12
     mapping_payloads: bool = True
     max_expanded_nodes: int = 60  # size of the program with shared operands written out
+    tall_prob: float = 0.05  # probability that a level stacks 5-9 unary operations instead of 0..max_unary
+    wide_prob: float = 0.1  # probability that a binary operation is immediately followed by another one (3-way)
+    flavour_prob: float = 0.0  # probability that a case mixes int / float / bool representations of equal numbers
 
 
 class Gen:
@@ -224,7 +227,10 @@ class Gen:
             state = self.leaf(engine, want_cols)
         else:
             state = self.tree(depth - 1, engine, want_cols)
-        for _ in range(rng.randint(0, cfg.max_unary)):
+        n_unary = rng.randint(0, cfg.max_unary)
+        if cfg.tall_prob and rng.random() < cfg.tall_prob:
+            n_unary = rng.randint(5, 9)
+        for _ in range(n_unary):
             if cfg.xfer_prob and rng.random() < cfg.xfer_prob:
                 new = self.unary(state, "xfer")
                 if new:
@@ -237,6 +243,11 @@ class Gen:
                 if depth <= 0:
                     continue
                 new = self.binary(state, op, depth)
+                if new and cfg.wide_prob and rng.random() < cfg.wide_prob:
+                    # three-way chain / join (or a chain of a join, ...) with no unary operation between
+                    op2 = op if rng.random() < 0.7 else ("join" if op == "chain" else "chain")
+                    if op2 in cfg.ops and (op2 != "join" or new[2].startswith("sql")):
+                        new = self.binary(new, op2, depth) or new
                 if new and self.expanded_size(new[0]) > cfg.max_expanded_nodes:
                     continue  # keep compiled statements within what SQLite plans in reasonable time
             else:
@@ -322,8 +333,34 @@ class Gen:
         return ["join", oprog, prog, p, None], allc, eng
 
 
+def flavour_leaves(leaves: dict, rng) -> int:
+    """Replace some integer leaf values by numerically equal values of another Python type
+    (1 -> 1.0 / True, 0 -> 0.0 / -0.0 / False, n -> float(n)).  Every comparison, sort and
+    deduplication treats them as equal, so *which* of several equal rows survives (first occurrence,
+    stable order) becomes observable through the types.  Iteration-engine leaves only."""
+    n = 0
+    for spec in leaves.values():
+        if spec["engine"].startswith("sql") or spec.get("kind") != "normal":
+            continue
+        for row in spec["rows"]:
+            for i, v in enumerate(row):
+                if type(v) is not int or rng.random() < 0.5:
+                    continue
+                r = rng.random()
+                if v in (0, 1) and r < 0.4:
+                    row[i] = bool(v)
+                elif v == 0 and r < 0.55:
+                    row[i] = -0.0
+                else:
+                    row[i] = float(v)
+                n += 1
+    return n
+
+
 def case_from(gen: Gen, state) -> dict:
     prog, cols, eng = state
+    if gen.cfg.flavour_prob and gen.rng.random() < gen.cfg.flavour_prob:
+        flavour_leaves(gen.leaves, gen.rng)
     return {"leaves": gen.leaves, "prog": prog, "cols": sorted(cols), "engine": eng}
 
 
